@@ -46,6 +46,8 @@ class NodeVisitor(visitor.PartialVisitor[ast.AST]):
         """
         for v in iter_values(node):
             self.visit(v)
+            # Whatever is entered is left: extensions must see a departure for every visit.
+            self.depart(v)
     
     @classmethod
     def get_children(cls, node: ast.AST) -> Iterable[ast.AST]:
